@@ -715,6 +715,33 @@ func (o *ownership) analyse(fn *ssa.Function, a acquisition) leakReport {
 					}
 				}
 			}
+			// ... also through a small helper of the same package that hands its parameter to the callback on every path
+			// (completeInline(cb, err, conn))
+			if cc, ok := in.(*ssa.Call); ok {
+				if hf := cc.Call.StaticCallee(); hf != nil && isHelperOf(fn, hf) {
+					for k, arg := range cc.Call.Args {
+						if !h.vals[arg] || k >= len(hf.Params) {
+							continue
+						}
+						q := hf.Params[k]
+						okp, _ := mustPassAt(hf.Blocks[0], 0, func(x ssa.Instruction) bool {
+							dc, ok := x.(ssa.CallInstruction)
+							if !ok || !isDynamicFuncCall(dc) {
+								return false
+							}
+							for _, a := range dc.Common().Args {
+								if resolveCell(strip(a)) == ssa.Value(q) {
+									return true
+								}
+							}
+							return false
+						})
+						if okp {
+							owner = true
+						}
+					}
+				}
+			}
 		}
 		for i := 0; i < end; i++ {
 			if d, ok := pi.instrs[i].(*ssa.Defer); ok {
